@@ -294,35 +294,7 @@ func init() {
 		}
 		// three definitions whose names collide after normalisation, one of them reached FIRST through a $ref inside
 		// another that is still being generated (every ordered pair i -> j), plus a chain i -> j -> k
-		collNames := []string{"ShippingAddress", "shippingAddress", "shipping_address"}
-		type edge struct{ from, to int }
-		var edgeSets [][]edge
-		for i := 0; i < 3; i++ {
-			for j := 0; j < 3; j++ {
-				if i != j {
-					edgeSets = append(edgeSets, []edge{{i, j}})
-				}
-			}
-		}
-		edgeSets = append(edgeSets, []edge{{0, 1}, {1, 2}}, []edge{{1, 2}, {2, 0}}, []edge{{0, 2}, {0, 1}}, []edge{{1, 0}, {1, 2}})
-		for _, es := range edgeSets {
-			defs := M{}
-			for i, nm := range collNames {
-				defs[nm] = M{"type": "object", "properties": M{fmt.Sprintf("own%d", i): M{"type": "integer"}}, "required": []any{fmt.Sprintf("own%d", i)}}
-			}
-			val := func(i int) M { return M{fmt.Sprintf("own%d", i): 10 + i} }
-			vals := []M{val(0), val(1), val(2)}
-			// innermost first, so that a referrer embeds the final value of its target
-			for k := len(es) - 1; k >= 0; k-- {
-				e := es[k]
-				key := fmt.Sprintf("r%d", e.to)
-				defs[collNames[e.from]].(M)["properties"].(M)[key] = M{"$ref": "#/$defs/" + collNames[e.to]}
-				vals[e.from][key] = sgen.DeepCopy(vals[e.to])
-			}
-			schema := M{"type": "object", "properties": M{"p0": M{"$ref": "#/$defs/" + collNames[0]}, "p1": M{"$ref": "#/$defs/" + collNames[1]}, "p2": M{"$ref": "#/$defs/" + collNames[2]}}, "$defs": defs}
-			doc := M{"p0": vals[0], "p1": vals[1], "p2": vals[2]}
-			pcs = append(pcs, baseCase("c14-type-collisions-through-refs", schema, []any{doc}, fmt.Sprint(es)))
-		}
+		pcs = append(pcs, collisionThroughRefsCases("c14-type-collisions-through-refs")...)
 		// key fidelity: every character encoding/json admits in a tag name, inside / before / after letters, and
 		// names that look like format verbs, template actions or escapes: the tag must carry the exact key
 		const tagPunct = "!#$%&()*+-./:;<=>?@[]^_{|}~ "
@@ -429,4 +401,40 @@ func knownListed(c *engine.Ctx, id string) bool {
 		}
 	}
 	return false
+}
+
+// collisionThroughRefsCases: three definitions whose names collide after normalisation, one of them reached first
+// through a $ref inside another that is still being generated (every ordered pair, and chains).
+func collisionThroughRefsCases(stream string) []*core.PCase {
+	var pcs []*core.PCase
+	collNames := []string{"ShippingAddress", "shippingAddress", "shipping_address"}
+	type edge struct{ from, to int }
+	var edgeSets [][]edge
+	for i := 0; i < 3; i++ {
+		for j := 0; j < 3; j++ {
+			if i != j {
+				edgeSets = append(edgeSets, []edge{{i, j}})
+			}
+		}
+	}
+	edgeSets = append(edgeSets, []edge{{0, 1}, {1, 2}}, []edge{{1, 2}, {2, 0}}, []edge{{0, 2}, {0, 1}}, []edge{{1, 0}, {1, 2}})
+	for _, es := range edgeSets {
+		defs := M{}
+		for i, nm := range collNames {
+			defs[nm] = M{"type": "object", "properties": M{fmt.Sprintf("own%d", i): M{"type": "integer"}}, "required": []any{fmt.Sprintf("own%d", i)}}
+		}
+		val := func(i int) M { return M{fmt.Sprintf("own%d", i): 10 + i} }
+		vals := []M{val(0), val(1), val(2)}
+		// innermost first, so that a referrer embeds the final value of its target
+		for k := len(es) - 1; k >= 0; k-- {
+			e := es[k]
+			key := fmt.Sprintf("r%d", e.to)
+			defs[collNames[e.from]].(M)["properties"].(M)[key] = M{"$ref": "#/$defs/" + collNames[e.to]}
+			vals[e.from][key] = sgen.DeepCopy(vals[e.to])
+		}
+		schema := M{"type": "object", "properties": M{"p0": M{"$ref": "#/$defs/" + collNames[0]}, "p1": M{"$ref": "#/$defs/" + collNames[1]}, "p2": M{"$ref": "#/$defs/" + collNames[2]}}, "$defs": defs}
+		doc := M{"p0": vals[0], "p1": vals[1], "p2": vals[2]}
+		pcs = append(pcs, baseCase(stream, schema, []any{doc}, fmt.Sprint(es)))
+	}
+	return pcs
 }
